@@ -109,6 +109,10 @@ func genC12(tier string, run int, r *simcore.Rand) *harness.Plan {
 			}
 		}
 		ops = append(ops, op)
+		if len(op.Fail) > 0 && r.Bool(0.35) {
+			// the client tries again, the replicas are back
+			ops = append(ops, c12Op{Op: sim.Op{Kind: "recv", B: []int{oi}, Via: op.Via}, Fail: map[int]string{}})
+		}
 		// interleave reads
 		for r.Bool(0.6) {
 			switch r.Intn(4) {
@@ -264,6 +268,14 @@ func execC12(rc *harness.RunCtx, p *harness.Plan, cfg *Config, rawOps []c12Op) *
 			h, _ := held(ref)
 			pre[ref] = h
 		}
+		// which write replicas hold the blob already (a retry of a receive
+		// that failed below the quorum finds it on a minority)
+		preKid := map[string]bool{}
+		if op.Kind == "recv" {
+			for _, k := range root.Kids {
+				_, preKid[k.Name] = s.world.Store(k.Name).Get(s.pool[op.B[0]].Ref.String())
+			}
+		}
 		var res sim.Result
 		var retSeq uint64
 		herr := s.task(func() {
@@ -297,14 +309,22 @@ func execC12(rc *harness.RunCtx, p *harness.Plan, cfg *Config, rawOps []c12Op) *
 			okBefore, okTotal := 0, 0
 			for _, k := range root.Kids {
 				st := s.world.Store(k.Name)
+				done := false
 				for _, ev := range st.Log {
 					if ev.Op == "recv-ret" && ev.Ref == ref && ev.OK && ev.Seq > res.Call {
 						okTotal++
 						if ev.Seq < retSeq {
 							okBefore++
 						}
+						done = true
 						break
 					}
+				}
+				if !done && preKid[k.Name] {
+					// held since an earlier receive: counts as stored
+					okTotal++
+					okBefore++
+					out.Reached["recv-finds-blob-on-a-replica"]++
 				}
 			}
 			if res.Err == nil {
